@@ -14,7 +14,7 @@ RULE = ('Hypothesis-generated netlists (fork chains, both port styles, open pins
         '(3c) both code paths capture the same from a waveform written straight into the output regions (timestamps in any order), (7) delay dataset selection modes 0 (global) and 1 (per lane), uniform and mixed lane by lane, vs simulating with that dataset alone (mode 2, pseudo-random picking, is not part of the statement and not exercised), (8) s_ppo_to_ppi of '
         'both classes; compared: s[3..8], s[10] at all outputs / state elements, exact equality. Part logic: LogicSim m=2/4/8 plain vs c_reuse, '
         'strip_forks, extra lanes, lane permutation on s[1]. non-trivial: circuit has a multi-output fork and >= 3 levels and the compared '
-        'configurations really differ (c_len smaller with reuse / fewer ops when stripped); distinct by SHA-1 of the case.')
+        'configurations really differ (c_len smaller with reuse / fewer ops when stripped); distinct by SHA-1 of the case. Relation 3e: on the kernel class a capture with sd = 2 at a grid time (transitions inside the undecided band, value drawn from seed, lane and port) is the same with and without c_reuse / strip_forks. Floating nets (undriven forks on otherwise unconnected operand pins) occur in 2 cases of 5.')
 ASSUMPTIONS = ['GPU path = kernels run by the pure-Python MockCuda launcher (no CUDA device, no numba)', 'sd = 0: no sampled capture values']
 
 CMP_ROWS = (3, 4, 5, 6, 7, 8, 10)
@@ -61,6 +61,8 @@ def prop_wave(case):
     if case['actrl']:
         actrl = np.array([list(case['actrl'][l % len(case['actrl'])]) for l in range(max(1, nlines))], dtype=np.int32)
 
+    opts_sd = [1 / 64]
+
     def sim(klass=WaveSim, waves=None, sims=None, dl=None, ksims=None, seed=1, mode=None, per_lane=None, act=None, pre=None, owave=None, near=None, **opts):
         waves = waves or case['waves']
         sims = sims or len(waves[0])
@@ -80,7 +82,7 @@ def prop_wave(case):
                 ent = [np.float32(t / W.GRID) for t in owave[0]][:cap - 1] + [W.TMAX_OVL if owave[1] else W.TMAX]
                 for lane in range(sims):
                     s.c[loc:loc + len(ent), lane] = ent
-        if near is not None: s.c_to_s(time=near, sd=1 / 64)
+        if near is not None: s.c_to_s(time=near, sd=opts_sd[0])
         elif T is None: s.c_to_s()
         else: s.c_to_s(time=T)
         return s
@@ -146,6 +148,14 @@ def prop_wave(case):
     # at least 4 sd away (the capture probability is within 4e-5 of 0 or 1, so no random draw is involved), and both code paths report the same
     Tn = (case['pptime'] % 48) / 8 + 1 / 16
     same(res(sim(dl=d_alone, near=Tn)), res(sim(WaveSimCuda, dl=d_alone, near=Tn)), f'capture at {Tn} with sd=1/64: WaveSim vs WaveSimCuda')
+    # 3e the same on the kernel class with sd = 2: transitions inside the undecided band, the captured value is drawn from (seed, lane, port) -
+    # identical whatever the memory layout (the pure-Python fallback of the CPU class cannot run this branch: observation O5)
+    opts_sd[0] = 2.0
+    Te = (case['pptime'] % 48) / 8
+    g0 = res(sim(WaveSimCuda, dl=d_alone, near=Te))
+    same(g0, res(sim(WaveSimCuda, dl=d_alone, near=Te, c_reuse=True, strip_forks=sf)), f'WaveSimCuda capture at {Te} with sd=2: c_reuse, strip_forks={sf} vs plain')
+    if np.any((g0[CMP_ROWS.index(7)] > 0.01) & (g0[CMP_ROWS.index(7)] < 0.99)): labels.append('sampled_capture')
+    opts_sd[0] = 1 / 64
     s3b = sim(WaveSimCuda, dl=d_alone, c_reuse=True, strip_forks=sf)
     same(r0, res(s3b), f'WaveSimCuda(c_reuse, strip_forks={sf}) vs WaveSim plain')
     # 3b a simulator object that was used before with other stimuli behaves like a fresh one (both code paths, with memory reuse)
